@@ -42,15 +42,26 @@ def _reactor_class(state):
             'login': cn.LoginReactor, 'play': cn.PlayingReactor}[state]
 
 
-def table(ctx, state, direction, which='supported', sentinel=False):
+def table(ctx, state, direction, which='supported', sentinel=False,
+          prior=None):
     import minecraft
     from minecraft.networking.connection import ConnectionContext
     sup = list(minecraft.SUPPORTED_PROTOCOL_VERSIONS)
     versions = sup if which == 'supported' else \
         [v for v in minecraft.KNOWN_PROTOCOL_VERSIONS if v not in sup]
+    mod = _module(state, direction)
+    if prior is not None:
+        # the same table has been asked for ANOTHER version earlier in the
+        # same process (tables are built on every connect / reactor switch):
+        # the answer for this version must not depend on that
+        pv0 = sym_version(ctx, 'prior_version', prior)
+        c0 = ConnectionContext(protocol_version=pv0)
+        for p0 in mod.get_packets(c0):
+            p0.get_id(c0)
+        if direction == 'clientbound':
+            _reactor_class(state)(types.SimpleNamespace(context=c0))
     pv = sym_version(ctx, 'pv', versions)
     c = ConnectionContext(protocol_version=pv)
-    mod = _module(state, direction)
     pkts = sorted(mod.get_packets(c), key=lambda p: p.__name__)
     by_id = {}
     bad = []
@@ -101,6 +112,15 @@ def instances(tier, seed):
         out.append(Instance('%s.%s' % (direction, state), 'table',
                             {'state': state, 'direction': direction}, W=40,
                             budget_s=900, witness_every=1))
+    import minecraft
+    sup = list(minecraft.SUPPORTED_PROTOCOL_VERSIONS)
+    for state, direction in TABLES:
+        # order of events: another version's table was built first
+        prior = sup if state != 'play' else [47, 757]
+        out.append(Instance('after-another:%s.%s' % (direction, state),
+                            'table', {'state': state, 'direction': direction,
+                                      'prior': prior}, W=40, budget_s=1800,
+                            witness_every=3))
     for state, direction in TABLES:
         if state in ('play', 'login'):
             out.append(Instance(
